@@ -351,7 +351,21 @@ pub fn run_history_split<K: Kit>(sc: &Scenario, seq: &[u8], logging: bool, split
             if rig.is_prm() {
                 let c = rig.construct(seq);
                 let r = rig.drv.solve(LONG);
-                Exec { calls: vec![(r, 0)], construct: Some(c), alt: None }
+                let mut calls = vec![(r, 0)];
+                // a milestone that survived from the previous life and lies outside the bounds of the
+                // present space can end a returned path: ask for it
+                let mut alt = None;
+                if let Snap::Roadmap(g) = rig.snapshot() {
+                    if let Some((m, _)) = g.iter().find(|(m, _)| !crate::oracles::in_bounds_ref(&rig, m)) {
+                        let dist = crate::scen::dist_fn::<K>(&sc.spec);
+                        let goal = std::sync::Arc::new(crate::seams::HGoal::<K>::new(vec![(m.clone(), 1e-9)], vec![rig.start.clone()], dist));
+                        let pd = std::sync::Arc::new(crate::drv::Pd::<K> { space: rig.space.clone(), start_states: vec![rig.start.clone()], goal: goal.clone() });
+                        rig.drv.set_problem_definition(pd);
+                        alt = Some((calls.len(), rig.start.clone(), goal));
+                        calls.push((rig.drv.solve(LONG), 0));
+                    }
+                }
+                Exec { calls, construct: Some(c), alt }
             } else {
                 Exec { calls: rig.feed(seq), construct: None, alt: None }
             }
